@@ -92,10 +92,13 @@ def QMatch (it : QItC) (dq : DQuestion) : Prop :=
   dq.qname.map lowerU8 = it.q.qname.wire.map lowerU8 ∧ (it.m ≠ .standard → dq.qname = it.q.qname.wire) ∧
   dq.qtype = it.q.qtype % 65536 ∧ dq.qclass = it.q.qclass % 65536
 
-/-- a decoded record is the record given (owner, TYPE, CLASS, TTL) -/
+/-- a decoded record is the record given (owner, TYPE, CLASS, TTL; RDATA octet for octet if its
+    type holds no compressible name) -/
 def RMatch (it : RItC) (dr : DRr) : Prop :=
   dr.owner.map lowerU8 = it.r.owner.wire.map lowerU8 ∧ (it.m ≠ .standard → dr.owner = it.r.owner.wire) ∧
-  dr.ty = it.r.ty % 65536 ∧ dr.cls = it.r.cls % 65536 ∧ dr.rawTtl = it.r.ttl % 4294967296 ∧ dr.pos = it.a
+  dr.ty = it.r.ty % 65536 ∧ dr.cls = it.r.cls % 65536 ∧ dr.rawTtl = it.r.ttl % 4294967296 ∧ dr.pos = it.a ∧
+  (it.r.ty < 65536 → ∀ ts, componentTypes it.r.cls it.r.ty = some ts → CompType.compressibleName ∉ ts →
+    dr.rdata = it.r.rdata ∧ dr.rdOk = true)
 
 theorem bytesAt_extract_prefix {o : Bytes} {c p : Nat} {d : List UInt8} (hc : c ≤ o.size) (h : BytesAt o p d)
     (hp : p + d.length ≤ c) : BytesAt (o.extract 0 c) p d := by
@@ -148,10 +151,25 @@ theorem decodeRrs_chainC (s : State) (hw : WInv s) :
     cases n with
     | zero => exact ⟨[], p, rfl, .nil, h⟩
     | succ n =>
-      obtain ⟨h1, ⟨hit, hnm, hby, hb⟩, h4⟩ := h
+      obtain ⟨h1, ⟨hit, hnm, hby, hb, ts, hct, hrd⟩, h4⟩ := h
       subst h1
       obtain ⟨w, hd, hcase, hex⟩ := item_decodes_name hw hit hnm
       have hle := rchainC_le h4
+      have hlit : x.r.ty < 65536 → ∀ ts', componentTypes x.r.cls x.r.ty = some ts' → CompType.compressibleName ∉ ts' →
+          expandRdata (s.octets.extract 0 s.cursor) (x.r.ty % 65536) (x.a + x.k + 10) x.rdlen = some x.r.rdata := by
+        intro hty ts' hct' hn
+        rw [hct] at hct'
+        simp only [Option.some.injEq] at hct'
+        subst hct'
+        obtain ⟨n1, n2, n3, n4⟩ := literal_types hct hn
+        obtain ⟨hbb, hee⟩ := rdAt_literal hrd hn
+        have hrl : x.rdlen = x.r.rdata.length := by omega
+        unfold expandRdata
+        rw [Nat.mod_eq_of_lt hty]
+        simp only [n1, n2, n3, n4, if_false]
+        rw [hrl]
+        congr 1
+        exact bytesAt_extract (bytesAt_extract_prefix hcs hbb (by omega))
       obtain ⟨l, p', hl, hfa, hch⟩ := ih _ _ h4 he n (by simpa using hn)
       have hl2 : ∀ y, (u16be y).length = 2 := fun _ => rfl
       obtain ⟨b12, b3⟩ := bytesAt_append hby
@@ -169,7 +187,10 @@ theorem decodeRrs_chainC (s : State) (hw : WInv s) :
       cases hex2 : expandRdata (s.octets.extract 0 s.cursor) (x.r.ty % 65536) (x.a + x.k + 10) x.rdlen with
       | some rd =>
         refine ⟨⟨w, x.r.ty % 65536, x.r.cls % 65536, x.r.ttl % 4294967296, rd, x.a, true⟩ :: l, p', ?_,
-          .cons ⟨hcase, hex, rfl, rfl, rfl, rfl⟩ (by simpa using hfa), by simpa using hch⟩
+          .cons ⟨hcase, hex, rfl, rfl, rfl, rfl, fun hty ts' hct' hn => by
+            rw [hlit hty ts' hct' hn] at hex2
+            simp only [Option.some.injEq] at hex2
+            exact ⟨hex2.symm, rfl⟩⟩ (by simpa using hfa), by simpa using hch⟩
         simp only [decodeRrs, hd]
         rw [specField16_some (by rw [hsz]; omega), specField16_some (by rw [hsz]; omega), e3,
           specField16_some (by rw [hsz]; omega)]
@@ -179,7 +200,8 @@ theorem decodeRrs_chainC (s : State) (hw : WInv s) :
       | none =>
         refine ⟨⟨w, x.r.ty % 65536, x.r.cls % 65536, x.r.ttl % 4294967296,
           ((s.octets.extract 0 s.cursor).extract (x.a + x.k + 10) (x.a + x.k + 10 + x.rdlen)).toList, x.a, false⟩ :: l,
-          p', ?_, .cons ⟨hcase, hex, rfl, rfl, rfl, rfl⟩ (by simpa using hfa), by simpa using hch⟩
+          p', ?_, .cons ⟨hcase, hex, rfl, rfl, rfl, rfl, fun hty ts' hct' hn => by
+            rw [hlit hty ts' hct' hn] at hex2; cases hex2⟩ (by simpa using hfa), by simpa using hch⟩
         simp only [decodeRrs, hd]
         rw [specField16_some (by rw [hsz]; omega), specField16_some (by rw [hsz]; omega), e3,
           specField16_some (by rw [hsz]; omega)]
@@ -209,7 +231,7 @@ theorem chainsC_addRr_none {s s' : State} (hw : WInv s) (hl : PtrLogOK s) (owner
   have e : Ext s s' := by
     have := frame_addRr .none owner ty cls ttl rd s
     rw [h] at this; exact this
-  obtain ⟨it, hch, hrr, _⟩ := addRr_itemC .none owner ty cls ttl rd s s' hw hwf trivial h hle
+  obtain ⟨it, hch, hrr, _⟩ := addRr_itemC .none owner ty cls ttl rd s s' hw hl hwf trivial h hle
   exact ⟨hrec.winv, hrec.log, e, qchainC_ext e hr12 hq, it,
     rchainC_append (rchainC_ext e (Nat.le_refl _) hr) hch, hrr⟩
 
